@@ -96,8 +96,9 @@ def gen_case(rng, idx):
                                       "cutoff": rat(rc * rng.choice([Fr(1, 2), Fr(3, 4)])), "pairFactor": "0*[rij]"}])
     rng.shuffle(modules)
 
-    kind = rng.choice(["random", "random", "random", "single", "swap", "dense"])
-    N = {"random": rng.randint(1, 10), "single": rng.randint(1, 4), "swap": 2, "dense": rng.randint(8, 16)}[kind]
+    kind = rng.choice(["random", "random", "random", "single", "swap", "dense", "cluster", "cluster"])
+    N = {"random": rng.randint(1, 10), "single": rng.randint(1, 4), "swap": 2, "dense": rng.randint(8, 16),
+         "cluster": rng.randint(5, 14)}[kind]
     fine = Fr(1, 1024)
 
     def lo_hi(d):
@@ -165,6 +166,27 @@ def gen_case(rng, idx):
             # keep both inside: stop them from reaching the walls
             T = 1 if cell[d0] in (0, n[d0] - 2) else min(T, 2)
             T = max(T, 1)
+    elif kind == "cluster":
+        # a cloud of about one cutoff around a corner of the box / of a cell: pairs across periodic faces,
+        # also through both links of a two-cell periodic direction
+        centre = [rng.choice([0, 0, n[d]]) * w[d] if rng.random() < 0.6 else rng.randrange(n[d] + 1) * w[d] for d in range(3)]
+        for i in range(N):
+            r = []
+            for d in range(3):
+                lo, hi = lo_hi(d)
+                x = centre[d] + rng.randrange(-8, 9) * rc / 8
+                if periodic[d]:
+                    x = x % L[d]
+                x = min(max(x, lo), hi)
+                if inexact[d] and (x / w[d]).denominator == 1:
+                    x += w[d] / 8 if x + w[d] / 8 <= hi else -w[d] / 8
+                r.append(x)
+            frozen = rng.random() < 0.25
+            delta = [Fr(0)] * 3 if frozen else [rng.choice([Fr(0), Fr(0), 1, -1]) * rng.choice([Fr(1, 8), Fr(1, 4)]) * w[d] for d in range(3)]
+            for d in range(3):
+                if not periodic[d] and not (w[d] / 16 <= r[d] + T * delta[d] <= L[d] - w[d] / 16):
+                    delta[d] = Fr(0)
+            particles.append((rng.choice(species), frozen, r, delta))
     else:
         for i in range(N):
             r = [pick_pos(d) for d in range(3)]
